@@ -206,7 +206,28 @@ func vxHas(t ast.BaseTerm, c ast.Constant) bool {
 	return h.HasType(c)
 }
 
+// vxParsedShape rewrites a type expression into the shape the parser gives to the
+// NAME(args) syntax: a variadic constructor gets the arity of its argument list.
+func vxParsedShape(t ast.BaseTerm) ast.BaseTerm {
+	f, ok := t.(ast.ApplyFn)
+	if !ok {
+		return t
+	}
+	args := make([]ast.BaseTerm, len(f.Args))
+	for i, a := range f.Args {
+		args[i] = vxParsedShape(a)
+	}
+	fn := f.Function
+	if fn.Arity == -1 {
+		fn.Arity = len(args)
+	}
+	return ast.ApplyFn{Function: fn, Args: args}
+}
+
 func vxSoundness(s, t ast.BaseTerm, c ast.Constant) {
+	if vxParam("PARSED", 0) == 1 {
+		s, t = vxParsedShape(s), vxParsedShape(t)
+	}
 	if WellformedType(nil, s) != nil || WellformedType(nil, t) != nil {
 		return
 	}
